@@ -89,6 +89,12 @@ type Caller struct {
 // The caller must not perform the requested operation if an error is
 // returned.
 func (db *DB) checkAndLog(caller Caller, action acl.Action, secret string, secretVersion api.SecretVersion) error {
+	if !utf8.ValidString(secret) {
+		// No secret has such a name (see Put), the audit log cannot carry it
+		// (JSON would record a different name), and pattern matching would
+		// read it as a different name too.
+		return errors.New("secret name is not valid UTF-8")
+	}
 	var errs []error
 	authorized := caller.Permissions.Allow(action, secret)
 	if !authorized {
